@@ -85,9 +85,9 @@ EXPRS = ["3", "n", "n+1", "2*n", "size(a)", "len(a)", "(n)", "n-1", "10,20", "n,
 
 ATTR_FORMS = [
     ("intent", ["(in)", "(out)", "(inout)"]),
-    ("rank", ["(1)", "(2)", "=1"]),
+    ("rank", ["(1)", "(2)", "=1", "=0", "(0)"]),      # rank 0: cdesc.yaml / generic.yaml
     ("dimension", ["(3)", "(n)", "(10,20)", "(n+1)", "(..)"]),
-    ("len", ["(30)", "=30"]),
+    ("len", ["(30)", "=30", "=0"]),
     ("charlen", ["(20)", "=20"]),
     ("value", [""]),
     ("hidden", [""]),
@@ -100,7 +100,7 @@ ATTR_FORMS = [
     ("external", [""]),
     ("free_pattern", ["(pat)"]),
     ("pure", [""]),
-    ("custom_attr", ["", "(x)", "=4"]),
+    ("custom_attr", ["", "(x)", "=4", "=0"]),
 ]
 
 
@@ -249,6 +249,20 @@ def variable(draw, depth=0, named=True, allow_attrs=True, allow_array=True, in_p
         model = dict(kind="fptr", base=canon, const=const, volatile=vol, ptrs=ops, name=name,
                      params=[p["model"] for p in ps])
         feats.append("fptr")
+    elif depth == 0 and allow_array and named and draw(st.integers(0, 11)) == 0 and \
+            not (canon == "Class1" and not [o for o in ops if o[0] != "&"]):
+        # pointer to an array: T (*name)[n][m]   (a grouped declarator that is not a function pointer)
+        ops = [o for o in ops if o[0] != "&"]
+        if canon == "void" and not ops:
+            ops = [("*", False, False)]
+        pc = draw(st.integers(0, 3)) == 0
+        arrays = [str(draw(st.integers(1, 20))) for _ in range(draw(st.integers(1, 2)))]
+        out = spec + ptr_tokens(ops) + ["(", "*"] + (["const"] if pc else []) + [name, ")"]
+        for a in arrays:
+            out += ["[", a, "]"]
+        cxx = list(out)
+        model = dict(kind="parr", base=canon, const=const, volatile=vol, ptrs=ops, name=name, array=arrays, inner_const=pc)
+        feats.append("ptr-to-array")
     else:
         if allow_array and (not ops or ops[-1][0] != "&") and canon != "void" or \
                 (allow_array and canon == "void" and ops and ops[-1][0] == "*"):
